@@ -18,14 +18,16 @@ open CbiVerif.Argparse CbiVerif.Extract CbiVerif.ArgvLemmas CbiVerif.ExtractLemm
 abbrev Argv := List (List Char)
 
 /-- The table / constructor keywords / parse call / `PreprocessorConfiguration` assembly / `shlex.split` call
-re-extracted from the code on this run are the ones all theorems below are about. -/
+re-extracted from the code on this run (including the `-U` row with CBI's `_UndefineAction` and the characters that end
+a macro name there) are the ones all theorems below are about. -/
 theorem table_generated :
     Argparse.table = ArgvLemmas.T ∧ Argparse.settingsOK = true ∧ Shlex.splitOK = true ∧
     Gen.ArgTable.definesSrc = [['d','e','f','i','n','e','s']] ∧
     Gen.ArgTable.includePathsSrc = [['i','n','c','l','u','d','e','_','p','a','t','h','s'],
       ['s','y','s','t','e','m','_','i','n','c','l','u','d','e','_','p','a','t','h','s']] ∧
-    Gen.ArgTable.includeFilesSrc = [['i','n','c','l','u','d','e','_','f','i','l','e','s']] :=
-  ⟨table_eq, settings_ok, ShlexLemmas.split_ok, rfl, rfl, rfl⟩
+    Gen.ArgTable.includeFilesSrc = [['i','n','c','l','u','d','e','_','f','i','l','e','s']] ∧
+    Gen.ArgTable.undefineStops = ['=', '('] :=
+  ⟨table_eq, settings_ok, ShlexLemmas.split_ok, rfl, rfl, rfl, rfl⟩
 
 /-- **C11.main** — on every tame command line (any length, any mixture of modelled and unmodelled
 arguments) the parser model does not abort and returns exactly the lists of the property-level
@@ -64,34 +66,55 @@ theorem tame_iff_no_class (argv : Argv) : Tame argv ↔ ∀ t : Tag, t ∉ class
 /-! ### order -/
 
 /-- **order_preserved** — a command line built from items (modelled flag in separate or attached spelling,
-or unmodelled argument), in any interleaving: for each modelled flag the extracted list is exactly the
-sequence of that flag's values *in command-line order*. -/
-theorem order_preserved (items : List Item) (h : ∀ it ∈ items, it.WF) (g : Flag) :
+or unmodelled argument), in any interleaving: for each modelled flag other than `-D` the extracted list is exactly
+the sequence of that flag's values *in command-line order* (for `-U`: the names).
+Statement changed with `-U` support: it used to hold for `g = .D` too; with `-U` the definitions are the ones *in
+force* (`defines_in_force`), which is the old statement whenever the command line has no `-U` (`order_preserved_defines`). -/
+theorem order_preserved (items : List Item) (h : ∀ it ∈ items, it.WF) (g : Flag) (hg : g ≠ .D) :
     (lists (renderAll items)).get g = items.filterMap (Item.value? g) :=
-  (lists_items items h).2 g
+  (lists_items items h).2.1 g hg
+
+/-- **defines_in_force** — the extracted definitions are exactly the `-D` values that no later `-U` names, in
+command-line order (`Extract.inForce`; membership: `ExtractLemmas.mem_inForce`, order: `inForce_sublist`). -/
+theorem defines_in_force (items : List Item) (h : ∀ it ∈ items, it.WF) :
+    (lists (renderAll items)).defines = inForce items :=
+  (lists_items items h).2.2
+
+/-- the old `order_preserved` for `-D`: without `-U` the definitions are all `-D` values in command-line order -/
+theorem order_preserved_defines (items : List Item) (h : ∀ it ∈ items, it.WF) (hu : ∀ it ∈ items, it.value? .U = none) :
+    (lists (renderAll items)).get .D = items.filterMap (Item.value? .D) := by
+  show (lists (renderAll items)).defines = _
+  rw [defines_in_force items h, inForce_no_undef items hu]
+
+/-- in general the definitions are a subsequence of the `-D` values: nothing is invented, the order is kept -/
+theorem defines_sublist (items : List Item) (h : ∀ it ∈ items, it.WF) :
+    ((lists (renderAll items)).defines).Sublist (items.filterMap (Item.value? .D)) := by
+  rw [defines_in_force items h]; exact inForce_sublist items
 
 /-- the same for the parser model on tame command lines; the search path is all `-I` directories followed by
 all `-isystem` directories -/
 theorem order_preserved_model (items : List Item) (h : ∀ it ∈ items, it.WF) (ht : Tame (renderAll items)) :
     argparseModel (renderAll items) = .ok (toModel
-      ⟨items.filterMap (Item.value? .D),
+      ⟨inForce items,
        items.filterMap (Item.value? .I) ++ items.filterMap (Item.value? .isystem),
        items.filterMap (Item.value? .include)⟩) := by
   rw [main _ ht]
-  have e := fun g => order_preserved items h g
-  have e1 := e .D; have e2 := e .I; have e3 := e .isystem; have e4 := e .include
-  simp only [Lists.get] at e1 e2 e3 e4
+  have e := fun g hg => order_preserved items h g hg
+  have e1 := defines_in_force items h
+  have e2 := e .I (by decide); have e3 := e .isystem (by decide); have e4 := e .include (by decide)
+  simp only [Lists.get] at e2 e3 e4
   simp only [extract, Lists.result, e1, e2, e3, e4]
 
 example : (∀ it ∈ [Item.other "-Wall".toList, .att .D "A".toList, .sep .isystem "s".toList, .sep .I "i".toList,
-      .att .D "B=2".toList], it.WF) ∧
+      .att .D "B=2".toList, .att .U "A".toList], it.WF) ∧
     Tame (renderAll [Item.other "-Wall".toList, .att .D "A".toList, .sep .isystem "s".toList, .sep .I "i".toList,
-      .att .D "B=2".toList]) := by
-  constructor
-  · intro it hit
-    simp only [List.mem_cons, List.not_mem_nil, or_false] at hit
-    rcases hit with rfl | rfl | rfl | rfl | rfl <;> simp [Item.WF] <;> decide
-  · decide
+      .att .D "B=2".toList, .att .U "A".toList]) ∧
+    inForce [Item.other "-Wall".toList, .att .D "A".toList, .sep .isystem "s".toList, .sep .I "i".toList,
+      .att .D "B=2".toList, .att .U "A".toList] = ["B=2".toList] := by
+  refine ⟨?_, by decide, by decide⟩
+  intro it hit
+  simp only [List.mem_cons, List.not_mem_nil, or_false] at hit
+  rcases hit with rfl | rfl | rfl | rfl | rfl | rfl <;> simp [Item.WF] <;> decide
 
 /-! ### unmodelled options are ignored -/
 
